@@ -20,6 +20,12 @@ Fixpoint SDom (l : list N) : Prop :=
 Lemma pow2_pos' a : 0 < 2 ^ a.
 Proof. apply N.neq_0_lt_0, N.pow_nonzero. discriminate. Qed.
 
+Lemma pow2_lt_le_g a b : 2 ^ a < 2 * 2 ^ b -> 2 ^ a <= 2 ^ b.
+Proof.
+  intros H. rewrite <- N.pow_succ_r' in H. apply N.pow_lt_mono_r_iff in H; [|lia].
+  apply N.pow_le_mono_r; lia.
+Qed.
+
 Lemma sum2_app l1 l2 : sum2 (l1 ++ l2) = sum2 l1 + sum2 l2.
 Proof. induction l1 as [|a l1 IH]; cbn [app sum2]; [reflexivity|]. rewrite IH. lia. Qed.
 
@@ -196,4 +202,15 @@ Proof.
   assert (Ham : a < m).
   { apply (N.pow_lt_mono_r_iff 2); [lia|]. pose proof (pow2_pos' a). lia. }
   specialize (IH a H2 H1). lia.
+Qed.
+
+(* coarse length bound for a not yet merged stack *)
+Lemma dom_length_bound : forall l m, Dom l -> sum2 l <= 2 ^ m -> N.of_nat (length l) <= m + 2.
+Proof.
+  induction l as [|x l IH]; intros m HD Hs; [cbn; lia|].
+  cbn [Dom sum2 length] in *. destruct HD as [H1 H2].
+  destruct l as [|y l']; [cbn [length]; lia|].
+  assert (Hpos : 0 < sum2 (y :: l')) by (cbn [sum2]; pose proof (pow2_pos' y); lia).
+  assert (Hx : x < m) by (apply (N.pow_lt_mono_r_iff 2); lia).
+  specialize (IH x H2 H1). lia.
 Qed.
